@@ -3,7 +3,7 @@
 P=$1; shift
 cd /repo || exit 2
 if ! git diff --quiet; then echo "/repo is dirty"; exit 2; fi
-if ! git apply --3way "$P" 2>/tmp/apply.err; then echo "APPLY FAILED: $(cat /tmp/apply.err | head -3)"; git checkout -- . ; git reset -q; exit 3; fi
+if ! git apply --3way "$P" 2>/tmp/apply.err; then echo "APPLY FAILED: $(cat /tmp/apply.err | head -3)"; git reset -q; git checkout HEAD -- . ; exit 3; fi
 git reset -q
 for c in "$@"; do
   out=$(/verif/bin/scverif check $c 2>&1)
@@ -11,5 +11,5 @@ for c in "$@"; do
   echo "== $c exit=$code"
   echo "$out" | grep -E "^(VIOLATION R|UNDECIDED|LOAD-FAILED)" | cut -c1-400
 done
-git checkout -- .
+git reset -q; git checkout HEAD -- .
 git status --short | grep -v '^??' | head
